@@ -370,6 +370,11 @@ where
                         context.span(),
                         input.context_str(context.position())
                     );
+                    // The layout ahead belongs to the token just shifted. If
+                    // no layout is found before the next token (the Layout
+                    // rule is used and nothing is skipped) it must not be
+                    // attached to the next token again.
+                    context.set_layout_ahead(None);
                     next_token = self.next_token(input, context, &layout_parser)?;
                     log!("{}: {:?}", "Token ahead".paint(LOG), next_token);
                 }
